@@ -143,6 +143,138 @@ def short(node: ast.AST, n: int = 110) -> str:
     return s if len(s) <= n else s[: n - 3] + "..."
 
 
+
+class _Subst(ast.NodeTransformer):
+    def __init__(self, m):
+        self.m = m
+
+    def visit_Name(self, node):
+        if isinstance(node.ctx, ast.Load) and node.id in self.m:
+            import copy
+
+            return copy.deepcopy(self.m[node.id])
+        return node
+
+
+class _UnpackLiteralGen(ast.NodeTransformer):
+    """`a, b = (E(v) for v in (X, Y))`  ->  `a, b = (E(X), E(Y))`: a tuple-unpacked comprehension over a literal
+    sequence is a fixed tuple, written out so that the single-assignment expansion sees each element."""
+
+    def visit_Assign(self, node):
+        self.generic_visit(node)
+        v = node.value
+        if len(node.targets) == 1 and isinstance(node.targets[0], (ast.Tuple, ast.List)) and isinstance(v, (ast.GeneratorExp, ast.ListComp)) \
+                and len(v.generators) == 1 and not v.generators[0].ifs and not v.generators[0].is_async \
+                and isinstance(v.generators[0].iter, (ast.Tuple, ast.List)) and len(v.generators[0].iter.elts) == len(node.targets[0].elts):
+            g = v.generators[0]
+            elts = []
+            import copy
+
+            for item in g.iter.elts:
+                if isinstance(g.target, ast.Name):
+                    m = {g.target.id: item}
+                elif isinstance(g.target, (ast.Tuple, ast.List)) and isinstance(item, (ast.Tuple, ast.List)) and len(item.elts) == len(g.target.elts) \
+                        and all(isinstance(t, ast.Name) for t in g.target.elts):
+                    m = {t.id: e for t, e in zip(g.target.elts, item.elts)}
+                else:
+                    return node
+                elts.append(_Subst(m).visit(copy.deepcopy(v.elt)))
+            node.value = ast.copy_location(ast.Tuple(elts=elts, ctx=ast.Load()), v)
+            ast.fix_missing_locations(node)
+        return node
+
+
+
+def _stable_operand(e: ast.AST, rebound: Set[str]) -> bool:
+    """An expression whose value cannot differ between the point it was packed and the point it is unpacked: constants,
+    and names / attribute chains whose root name is bound at most once in the function."""
+    if isinstance(e, ast.Constant):
+        return True
+    if isinstance(e, ast.Name):
+        return e.id not in rebound
+    if isinstance(e, ast.Attribute):
+        return _stable_operand(e.value, rebound)
+    return False
+
+
+class _SplatLiterals(ast.NodeTransformer):
+    """f(*t) with `t = (a, b, c)` bound once  ->  f(a, b, c);   f(**d) with `d = {"k": v}` / `d = dict(k=v)` bound
+    once  ->  f(k=v).  Only when the packed operands are stable (see _stable_operand) and the pack itself is not
+    mutated, so the rewritten call receives exactly the values the original receives."""
+
+    def visit_FunctionDef(self, fn):
+        self.generic_visit(fn)
+        binds: Dict[str, List[ast.AST]] = {}
+        mutated: Set[str] = set()
+        for n in ast.walk(fn):
+            if isinstance(n, ast.Name) and isinstance(n.ctx, ast.Store):
+                binds.setdefault(n.id, []).append(n)
+            elif isinstance(n, ast.arg):
+                binds.setdefault(n.arg, []).append(n)
+            elif isinstance(n, (ast.Subscript, ast.Attribute)) and isinstance(n.ctx, (ast.Store, ast.Del)) and isinstance(n.value, ast.Name):
+                mutated.add(n.value.id)
+            elif isinstance(n, ast.Call) and isinstance(n.func, ast.Attribute) and isinstance(n.func.value, ast.Name) \
+                    and n.func.attr in ("append", "extend", "update", "pop", "setdefault", "insert", "remove", "clear", "popitem"):
+                mutated.add(n.func.value.id)
+            elif isinstance(n, ast.AugAssign) and isinstance(n.target, ast.Name):
+                binds.setdefault(n.target.id, []).append(n)
+                binds.setdefault(n.target.id, []).append(n)
+        rebound = {k for k, v in binds.items() if len(v) > 1}
+        packs: Dict[str, ast.AST] = {}
+        for st in ast.walk(fn):
+            if isinstance(st, ast.Assign) and len(st.targets) == 1 and isinstance(st.targets[0], ast.Name):
+                nm = st.targets[0].id
+                if nm in rebound or nm in mutated:
+                    continue
+                v = st.value
+                if isinstance(v, (ast.Tuple, ast.List)) and all(_stable_operand(e, rebound) for e in v.elts):
+                    packs[nm] = v
+                elif isinstance(v, ast.Dict) and v.keys and all(isinstance(k, ast.Constant) and isinstance(k.value, str) for k in v.keys) \
+                        and all(_stable_operand(e, rebound) for e in v.values):
+                    packs[nm] = v
+                elif isinstance(v, ast.Call) and isinstance(v.func, ast.Name) and v.func.id == "dict" and not v.args and v.keywords \
+                        and all(k.arg is not None and _stable_operand(k.value, rebound) for k in v.keywords):
+                    packs[nm] = v
+        import copy
+
+        for c in ast.walk(fn):
+            if not isinstance(c, ast.Call):
+                continue
+            args: List[ast.AST] = []
+            for a in c.args:
+                if isinstance(a, ast.Starred) and isinstance(a.value, ast.Name) and isinstance(packs.get(a.value.id), (ast.Tuple, ast.List)):
+                    args += [copy.deepcopy(e) for e in packs[a.value.id].elts]
+                else:
+                    args.append(a)
+            c.args = args
+            kws: List[ast.keyword] = []
+            for k in c.keywords:
+                pk = packs.get(k.value.id) if k.arg is None and isinstance(k.value, ast.Name) else None
+                if k.arg is None and isinstance(k.value, ast.Dict) and k.value.keys and all(isinstance(x, ast.Constant) and isinstance(x.value, str) for x in k.value.keys):
+                    pk = k.value  # f(**{"k": v})
+                if isinstance(pk, ast.Dict):
+                    kws += [ast.keyword(arg=kk.value, value=copy.deepcopy(vv)) for kk, vv in zip(pk.keys, pk.values)]
+                elif isinstance(pk, ast.Call):
+                    kws += [ast.keyword(arg=kk.arg, value=copy.deepcopy(kk.value)) for kk in pk.keywords]
+                else:
+                    kws.append(k)
+            c.keywords = kws
+        # the same unpacking in a returned / assigned tuple: (*t, x) -> (a, b, c, x)
+        for t in ast.walk(fn):
+            if isinstance(t, (ast.Tuple, ast.List)) and isinstance(getattr(t, "ctx", None), ast.Load):
+                elts: List[ast.AST] = []
+                for e in t.elts:
+                    if isinstance(e, ast.Starred) and isinstance(e.value, ast.Name) and isinstance(packs.get(e.value.id), (ast.Tuple, ast.List)):
+                        elts += [copy.deepcopy(x) for x in packs[e.value.id].elts]
+                    else:
+                        elts.append(e)
+                t.elts = elts
+        ast.fix_missing_locations(fn)
+        return fn
+
+    visit_AsyncFunctionDef = visit_FunctionDef
+
+
 class Program:
     def __init__(self, repo: Optional[Path] = None, overrides: Optional[Dict[str, str]] = None):
         self.repo = Path(repo or os.environ.get("VERIF_REPO", "/repo"))
@@ -169,6 +301,7 @@ class Program:
                 tree = ast.parse(src, filename=str(path))
             except SyntaxError as e:
                 raise AnalysisError(f"cannot parse {rel}: {e}")
+            tree = _SplatLiterals().visit(_UnpackLiteralGen().visit(tree))
             set_parents(tree)
             mi = ModuleInfo(
                 name=name,
